@@ -43,6 +43,10 @@ chk("C07",
     "Complete enumeration of a placement product against an absolute position oracle: 12 expression constructs (lexer, parser, semantic at first and inner token, untrusted input, availability, bare if:) x extra indentation 0-4 x lines above 0-3 x block/flow style x plain/single/double quoting x prefix text 0-5 x preceding placeholders 0-2 x spaces after ${{ 0-3 (about 65k workflows), plus key (unexpected, duplicate), enum/shell/permission value and glob-character constructs x placements; the generator records the line:column of the offending token and the real Linter's diagnostic must carry exactly it (shift-invariance follows since all shifts are enumerated). Also: every non-YAML-level diagnostic over positions x fragments of the seeds has 1 <= line <= #lines and column >= 1.",
     "One-line ASCII scalars without escape sequences only (as the property states); constructs are a fixed catalogue of 12 + 9." + OVERLAY_NOTE,
     "complete enumeration of a finite placement product vs generator-recorded positions")
+chk("C08",
+    "Bounded-exhaustive differential exploration: a project seed (workflow + local action + reusable workflow, clean and noisy variant) in which every kind of name is marked at every definition and use (about 170 occurrences: contexts, properties, functions, step and job ids incl. needs lists, input / secret / output / matrix / env / with keys, action and reusable-workflow interfaces, keys of a fromJSON literal, ['name'] indices); every single occurrence re-cased to UPPER and Capitalised and every pair of occurrences re-cased together (about 17k lints of the real Linter); oracle: the multiset of (file, line, column, kind, lower-cased message) equals that of the original spelling.",
+    "Subsets of more than two occurrences are not explored; keywords and string-literal values are never re-cased; string literals in index position count as names." + OVERLAY_NOTE,
+    "exhaustive enumeration of all single and pairwise re-casings with a differential oracle")
 chk("C10",
     "Stateless model checking of the real Linter.LintFiles under a controlled scheduler: 6 scenarios (shared local action, caller+callee reusable workflow with AST- vs file-derived interface, sibling and nested repositories with different configurations, messages built from shared slices, broken shared callees, -format) x every subset and argument order of the files x semaphore size {1,2} x all interleavings up to 2 preemptions (thorough 3); oracle: per-file diagnostics equal LintFile alone on a fresh Linter, defects of a shared callee exactly once per run, deep fingerprint of all package-level tables and every Config unchanged (AllWebhookTypes at every scheduling point), no deadlock.",
     "Data races proper are outside a cooperative scheduler's reach: the 'no data races' clause is only supported by the modification monitor plus a separate free-running -race pass, not decided. GOMAXPROCS is subsumed by interleavings under data-race freedom. Scenarios are a fixed catalogue of 6 drivers." + OVERLAY_NOTE,
